@@ -34,6 +34,9 @@ CHECKS = {
  "C16": dict(cat="exploration", tech="exhaustive width/value grids, witness-space search for the enforced width, round-trip property testing of generated packer schemas",
    text="All (bitlength, width, value) triples at small sizes are enumerated for to_bits/from_bits round trip and rejection; the enforced width of to_bits(n) and assert_positive(n) is decided by complete search over F_p for n != bitlength; packer schemas from a recursive strategy are round-tripped with plain and secret leaves at bit offsets. Grids exhaustive; schemas exploration.",
    note=TB + "; packer domain: moduli >= 2, non-empty lists, times >= 1.", ref="4 (C16)"),
+ "C09": dict(cat="exploration", tech="differential property-based testing: generated structured programs rendered as oblivious source and as a native-Python twin",
+   text="Generated programs with nested if/elif/else, bounded while with break conditions, for over _range with a secret bound, and lazy selections are rendered to source text in the documented one-statement-per-line idiom and executed on the recording backend; final variables are compared with a native-control-flow twin, the constraints are evaluated, guard state and block stack are checked, and the canonical trace is compared with that of a second input vector taking other branches. Exploration over generated programs.",
+   note=TB + "; the native twin rendered from the same AST is the reference.", ref="4 (C09)"),
 }
 PENDING = {}
 
